@@ -417,6 +417,40 @@ def check_mutated_system(res, tags, j, c, chain):
     _record(res, run, what_sys, case, claim, kinds, mags, x2)
 
 
+def check_reassigned_constant(res, tags, j, c, entry, factor):
+    """ONE EqSystem solved, then the constant of equilibrium j re-assigned on the live object (K_j * factor), then solved
+    again through the same entry point: the second answer obeys the NEW constants"""
+    import numpy as np
+
+    es, names, idx, K = build(tags, (0,) * len(tags))
+    init = [H2O if n == "H2O" else c for n in names]
+    what_sys = "%s init=%s, K[%d] re-assigned to %g x its first value between two calls" % ("+".join(tags), dict(zip(names, init)), j, factor)
+    case = dict(layer="HK", tags=list(tags), j=j, c=c, entry=entry, factor=factor)
+    run = "%s-after-reassigning-a-constant|Log+Lin" % entry
+    res.states += 1
+    res.transitions += 2
+    res.nontrivial += 1
+    res.evaluations += 2
+
+    def call():
+        if entry == "root":
+            return run_root(es, names, init, ("Log", "Lin"), False)
+        try:
+            r = es.solve(dict(zip(names, init)))
+            return np.asarray(r.conc, dtype=float).ravel(), bool(r.success), bool(r.sane), None
+        except Exception as e:
+            return None, False, False, "EXC %s" % type(e).__name__
+
+    call()
+    K2 = list(K)
+    K2[j] = K[j] * factor
+    es.rxns[j].param = K2[j]
+    x2, s2, sane2, exc2 = call()
+    claim = _claim(s2, sane2, exc2)
+    kinds, mags = judge(names, idx, K2, init, x2) if claim == "success+sane" else ([], {})
+    _record(res, run, what_sys, case, claim, kinds, mags, x2)
+
+
 def run_chunk(chunk, tier):
     res = Result()
     if chunk[0] == "H":
@@ -457,6 +491,9 @@ def run_chunk(chunk, tier):
             for c in MUT_INITS:
                 for chain in (("Log",), ("Log", "Lin")):
                     check_mutated_system(res, tags, j, c, chain)
+                for entry in ("root", "solve"):
+                    for factor in (100.0, 0.01):
+                        check_reassigned_constant(res, tags, j, c, entry, factor)
         res.sample(dict(layer="HR", system=list(tags), rewriting="coefficients x2, K**2, in place on the solved system"), limit=1)
     elif chunk[0] == "PN":
         _, orient = chunk
@@ -702,9 +739,11 @@ def grid_order_case(res, tags, a, b):
 
 # --------------------------------------------------------------------------------------------- replay
 def replay(case):
-    if case.get("layer") in ("PN", "GV", "PT", "WS"):
+    if case.get("layer") in ("PN", "GV", "PT", "WS", "HK"):
         res = Result()
-        if case["layer"] == "PT":
+        if case["layer"] == "HK":
+            check_reassigned_constant(res, tuple(case["tags"]), case["j"], case["c"], case["entry"], case["factor"])
+        elif case["layer"] == "PT":
             tiny_ksp_case(res, case["orient"], case["ksp"], tuple(case["chain"]), case["lat"])
         elif case["layer"] == "WS":
             warm_start_case(res, tuple(case["tags"]), tuple(case["chain"]))
